@@ -53,17 +53,16 @@ where
         if self.q_vals.len() < 2 {
             return;
         }
-        let mut x: Vec<T> = vec![T::zero(); self.q_vals.len()];
-        let mut y: Vec<T> = vec![T::zero(); self.q_vals.len()];
-        for count in 1..self.q_vals.len() {
-            x[count] = *self.q_vals.get(self.q_vals.len() - count).unwrap();
-            y[count] = -T::from(count).expect("can convert");
-        }
-
+        // kendall correlation of the values with time: every pair counts once, ties count 0
         let mut num = T::zero();
-        for count in 2..self.q_vals.len() {
-            for k in 1..count - 1 {
-                num = num - ((x[count] - x[k]).signum());
+        for newer in 1..self.q_vals.len() {
+            for older in 0..newer {
+                let diff = self.q_vals[newer] - self.q_vals[older];
+                if diff > T::zero() {
+                    num = num + T::one();
+                } else if diff < T::zero() {
+                    num = num - T::one();
+                }
             }
         }
 
